@@ -70,6 +70,19 @@ func main() {
 	add("C07", "F7", "fixed", "426c6f1", "Parse panicked (action.(shift)) on the first syntax error when the entry for 'error' in the top state is a reduction (tokens: else-like stray token)",
 		camp.Witness{Kind: "parse", Grammar: f7, Toks: []string{")"}, FailAt: -1})
 
+	// ---- F1 (fixed): front-end pseudo error recovery
+	add("C14", "F1", "fixed", "194db0c", "the front end 'recovered' from a syntax error at the start of a syntax alternative and accepted the file: A : ) ) ) \"c\" ; exited 0",
+		camp.Witness{Kind: "c14", Text: "A : ) ) ) \"c\" ;\n", Strs: []string{"ins", "token sequence is not a sentence of spec/gocc2.ebnf"}})
+	add("C14", "F1-b", "fixed", "194db0c", "stray illegal character at the start of an alternative was skipped: S : # a b ; exited 0",
+		camp.Witness{Kind: "c14", Text: "a : 'a' ;\nb : 'b' ;\nS : # a b | b ;\n", Strs: []string{"ins", "token sequence is not a sentence of spec/gocc2.ebnf"}})
+	// ---- F11 (fixed): undefined regdef inside an unused regdef
+	add("C14", "F11", "fixed", "95fb0a7", "undefined regular definition referenced only from an unused regular definition was accepted: _a : _undef ; t : 'x' ;",
+		camp.Witness{Kind: "c14", Text: "_a : _undef ;\nt : 'x' ;\n", Strs: []string{"undef-regdef", "uses an undefined regular definition"}})
+	// ---- F12 (fixed): duplicate alternatives merged
+	f12 := &Grammar{NTs: []*NTDef{{Head: "S", Alts: []SAlt{{Body: []Sym{tk("c")}}, {Body: []Sym{tk("k"), nt("S"), st("*")}}, {Body: []Sym{tk("k"), nt("S"), st("*")}}}}}}
+	add("C04", "F12", "fixed", "ba2fbdb", "two alternatives with the same body were merged into one LR(1) item, so their reduce/reduce conflict was never announced: S : c | k S \"*\" | k S \"*\" ;",
+		camp.Witness{Kind: "c04", Grammar: f12})
+
 	out := map[string]interface{}{"findings": fs}
 	var log []string
 	for _, f := range fs {
